@@ -78,15 +78,17 @@ func (sortedSet *SortedSet) ZAddGT(member string, score float64) bool {
 // zAdd puts member into set,  and returns whether it has inserted new node
 func (sortedSet *SortedSet) zAdd(member string, score float64) int64 {
 	element, ok := sortedSet.dict.Get(member)
+	if ok && score == element.Score {
+		// nothing changes; in particular +0 / -0 stay the same in the dictionary and the index
+		return 0
+	}
 	sortedSet.dict.Set(member, &Item{
 		Member: member,
 		Score:  score,
 	})
 	if ok {
-		if score != element.Score {
-			sortedSet.skiplist.remove(member, element.Score)
-			sortedSet.skiplist.insert(member, score)
-		}
+		sortedSet.skiplist.remove(member, element.Score)
+		sortedSet.skiplist.insert(member, score)
 		return 0
 	}
 	sortedSet.skiplist.insert(member, score)
